@@ -432,8 +432,14 @@ def generate(rng, config):
                                     transforms=False)
         toks = c["argv"][1:]
         toks.insert(1, "--")
-        toks.insert(rng.randint(2, len(toks)),
-                    rng.choice(["-h", "--help", "-h", "-q", "-x"]))
+        extra = rng.choice(["-h", "--help", "-h", "-q", "-x", "--", "--"])
+        nums = [i for i, a in enumerate(toks) if i >= 2 and NUM.match(a)]
+        if extra == "--" and nums:
+            # a second '--' where a number is expected (argparse hands the
+            # formula an empty list there)
+            toks[rng.choice(nums)] = "--"
+        else:
+            toks.insert(rng.randint(2, len(toks)), extra)
         argv = toks
         muts.append("end_of_options")
     elif config == "mutated":
